@@ -125,7 +125,8 @@ class KeepaliveAdapter(object):
   real of_01.Connection objects served by the real OpenFlow_01_Task loop (harness/c09_env), and one real
   SoftwareSwitch per connection at the far end of the scripted socket."""
 
-  def __init__(self, I=2, TO=1, direct="mix", seed=0):
+  def __init__(self, I=2, TO=1, direct="mix", seed=0, dup=None):
+    self.dup = {int(k): v for k, v in (dup or {}).items()}      # connection -> datapath id (default: its own id)
     self.env = c09_env.Env()
     self.vs = VSched()
     self.I, self.TO = I, TO
@@ -139,8 +140,8 @@ class KeepaliveAdapter(object):
     self.calls = []           # (virtual time, exception name or "-") per _handle_timer call
     self.ntimers = 0
     self.nchat = 0
-    self.env.nexus.addListenerByName("ConnectionUp", lambda e: self.ups.append(e.dpid))
-    self.env.nexus.addListenerByName("ConnectionDown", lambda e: self.downs.append(e.dpid))
+    self.env.nexus.addListenerByName("ConnectionUp", lambda e: self.ups.append(self._cid(e.connection)))
+    self.env.nexus.addListenerByName("ConnectionDown", lambda e: self.downs.append(self._cid(e.connection)))
     ka._running = False
     ka._interval = ka._switch_timeout = None
     ad = self
@@ -170,8 +171,18 @@ class KeepaliveAdapter(object):
     self.vs.close()
 
   # ---- helpers
+  def _cid(self, con):
+    for c, x in self.cons.items():
+      if x is con:
+        return c
+    return -1
+
+  def _dpid(self, c):
+    return self.dup.get(c, c)
+
   def _reg(self):
-    return sorted(self.env.nexus.connections.keys())
+    """the registry, as the connections (ours) it holds"""
+    return sorted(self._cid(con) for con in self.env.nexus.connections.values())
 
   def _idle(self, c):
     v = self.cons[c].idle_time - self.vs.base
@@ -203,7 +214,7 @@ class KeepaliveAdapter(object):
       c = args["c"]
       env.accept(c)
       self.cons[c] = env.con_of(c)
-      self.sw[c] = SwitchEnd(dpid=c, ports=2)
+      self.sw[c] = SwitchEnd(dpid=self._dpid(c), ports=2)
       w = self._collect()
       r = {"wrote": w.pop(c, [])}
       if w:
